@@ -15,7 +15,8 @@ def leaf(id, kind, arity="one", shorts=(), longs=(), vt=None, env="", adj=False,
     return {"id": id, "kind": kind, "arity": arity, "vt": vt,
             "shorts": list(shorts), "longs": list(longs),
             "letters": [s[1:] for s in shorts], "env": env, "adj": adj, "guard": guard,
-            "hidden": hidden, "help": help or f"HELP-{id}", "catch": False}
+            "hidden": hidden, "help": help or f"HELP-{id}", "catch": False,
+            "lchars": [list(l[2:]) for l in longs], "completer": []}
 
 
 def sw(id, *names, **kw):
@@ -47,7 +48,7 @@ def postail(*items):
 def cmd(names, level, shorts=(), adjacent=False):
     names = [names] if isinstance(names, str) else list(names)
     return {"names": names, "shorts": list(shorts), "level": level, "adjacent": adjacent,
-            "help": f"HELP-cmd-{names[0]}"}
+            "help": f"HELP-cmd-{names[0]}", "nchars": [list(n) for n in names]}
 
 
 def cmdtail(cmds, optional=False):
@@ -551,4 +552,21 @@ def amb_family(seed, n, maxlen=2, budget=10**9):
                   spells=("sep", "glued") if len(out) % 2 else ("eq", "glued"), words=("1",), clusters=True)
         trim_to_budget(d, budget)
         out.append(d)
+    return out
+
+
+def prefix_cmd_family(seed, n):
+    """sibling subcommands whose names (and a short alias) are prefixes of one another (C14)"""
+    rnd = random.Random(seed)
+    out = []
+    for i in range(n):
+        sub = lambda k: level([sw(f"s{k}", f"-{'xyz'[k]}")], NOTAIL)
+        names = [["ab"], ["abc"], ["abd"]] if i % 2 == 0 else [["build"], ["bench"], ["b2"]]
+        order = list(range(3))
+        rnd.shuffle(order)
+        cmds = []
+        for k in order:
+            cmds.append(cmd(names[k], sub(k), shorts=(["a"] if i % 2 == 0 else ["b"]) if k == (i // 2) % 3 else []))
+        lvl = level([sw("t0", "-v")] if i % 3 else [], cmdtail(cmds, optional=bool(i % 2)))
+        out.append(mkdef(f"pc{seed}_{i}", lvl, maxlen=2, extras=(), spells=("sep",), words=("1",)))
     return out
